@@ -1,7 +1,7 @@
 (* C03 — the operations of [step3], one lemma per operation and receiver kind. *)
 From Coq Require Import ZArith List Bool Lia.
 From ADV Require Import C11.Model C11.Spec C11.ProofsMap C11.ProofsRef C03.Model C03.Spec C03.ProofsDense
-                        C03.ProofsSem C03.ProofsJoint.
+                        C03.ProofsSem C03.ProofsJoint C03.ProofsConv.
 Import ListNotations.
 Open Scope Z_scope.
 
@@ -241,4 +241,56 @@ Proof.
   destruct (step_dense_vdivv y w k a b H1 H2 H3 Hnz) as (_ & _ & X).
   destruct (step_sparse_vdivv y w t a' b' H4 H5 H6) as (_ & _ & _ & Y); [rewrite <- E2; auto|].
   rewrite X, Y, E1, E2. reflexivity.
+Qed.
+
+(* ------------------------------------------------------------------ conversions *)
+Lemma getd_addd_new w l : getd (addd w l) (length (dn w)) = l.
+Proof. unfold getd, addd. simpl. rewrite app_nth2 by lia. rewrite Nat.sub_diag. auto. Qed.
+Lemma getv_addv_new w v : getv (addv w v) (length (vecs w)) = v.
+Proof. unfold getv, addv. simpl. rewrite app_nth2 by lia. rewrite Nat.sub_diag. auto. Qed.
+Lemma getv_addv_old w v u : has w u -> getv (addv w v) u = getv w u.
+Proof. unfold has, getv, addv. simpl. intro H. apply app_nth1. auto. Qed.
+
+(* AsDense<T>Vector(x): the new dense vector holds x's values; no existing value changes *)
+Lemma step_asdense y w x :
+  match x with RS u => Inv (getv (sw w) u) /\ has (sw w) u | RD _ => True end ->
+  let r := step3 y w (AsDense x) in
+  ok_out r /\ abs3 (fst r) (RD (length (dn w))) = abs3 w x /\ Qw (sw w) (sw (fst r)) /\
+  (forall k, hasd w k -> getd (fst r) k = getd w k).
+Proof.
+  intro H. destruct x as [u|k]; cbn [step3].
+  - destruct H as (HI & Hu).
+    destruct (as_dense_correct y (sw w) u HI Hu) as (w' & d & E & D & HQ & _). rewrite E.
+    unfold ok_out. cbn [fst snd]. split; [auto|]. split; [|split; [exact HQ|]].
+    + cbn [abs3]. subst d. exact (getd_addd_new (sets w w') _).
+    + intros k Hk. unfold getd, addd, sets. simpl. apply app_nth1. auto.
+  - unfold ok_out. cbn [fst snd]. split; [auto|]. split; [cbn [abs3]; apply getd_addd_new|].
+    split; [apply Qw_refl|]. intros k' Hk. unfold getd, addd. simpl. apply app_nth1. auto.
+Qed.
+
+(* AsSparse<T>Vector(dense): the new sparse vector holds the dense values (every
+   position stored), is coherent, and no existing vector changes *)
+Lemma step_assparse_dense y w k :
+  WWf (sw w) ->
+  let r := step3 y w (AsSparse (RD k)) in
+  ok_out r /\ abs3 (fst r) (RS (length (vecs (sw w)))) = getd w k /\
+  Inv (getv (sw (fst r)) (length (vecs (sw w)))) /\ dn (fst r) = dn w /\
+  (forall u, has (sw w) u -> sabs (sw (fst r)) u = sabs (sw w) u).
+Proof.
+  intro HW. cbn [step3]. destruct (as_sparse (hp (sw w)) (getd w k)) as [h1 r] eqn:E.
+  destruct (as_sparse_correct _ _ _ _ E) as (A & D & I & W & (ext & X) & C).
+  assert (GN : getv (addv (seth (sw w) h1) r) (length (vecs (sw w))) = r)
+    by (apply (getv_addv_new (seth (sw w) h1) r)).
+  unfold ok_out. cbn [fst snd sets sw dn]. split; [auto|].
+  split; [|split; [|split; [auto|]]].
+  - cbn [abs3 sw sets]. unfold sabs. rewrite GN. exact A.
+  - rewrite GN. exact I.
+  - intros u Hu. unfold sabs. rewrite (getv_addv_old (seth (sw w) h1) r u) by auto. cbn [hp addv seth].
+    change (getv (seth (sw w) h1) u) with (getv (sw w) u).
+    unfold abs_vec. apply map_ext. intro i. unfold peek.
+    destruct (lookup i (vals (getv (sw w) u))) as [l|] eqn:L; auto.
+    subst h1. unfold hget. apply app_nth1.
+    assert (Wu : Wf (hp (sw w)) (getv (sw w) u)).
+    { unfold getv. apply Forall_nth_d; auto. split; simpl; intros; discriminate. }
+    eapply (proj1 Wu); eauto.
 Qed.
